@@ -51,10 +51,17 @@ class MetaFacts:
                         out.append(st[2])
                     if isinstance(st, tuple) and st[0] == 'mcall' and st[2] == 'get_ident':
                         out.append(st[1])
-            elif k == 'if' and c['pol']:
-                for conj in conjuncts(c['cond']):
-                    if conj['k'] == 'MethodCall' and conj['method'] == 'is_ident':
-                        out.append(tm.term(conj['recv'], c['scope']))
+            elif k == 'if':
+                # `if p.is_ident(..)` taken, or the residual of `if !p.is_ident(..) { continue / return }`
+                cond, pol = c['cond'], c['pol']
+                while cond['k'] in ('Paren',) or (cond['k'] == 'Unary' and cond.get('op') == '!'):
+                    if cond['k'] == 'Unary':
+                        pol = not pol
+                    cond = cond['expr']
+                if pol:
+                    for conj in conjuncts(cond):
+                        if conj['k'] == 'MethodCall' and conj['method'] == 'is_ident':
+                            out.append(tm.term(conj['recv'], c['scope']))
         return out
 
     # -- validated ----------------------------------------------------------------------
